@@ -382,6 +382,19 @@ async fn run_case(case: &Case, ctx: &mut Ctx) -> CaseResult {
         if distinct_paths.len() >= 3 && user_txs_in_block {
             interesting_heights += 1;
         }
+        // C06's recorded finding also shows on the from-scratch path of FinalizeBlock (a node that
+        // did not execute the block in PrepareProposal constructs every transaction against the
+        // block-start state); such a block cannot be decided by honest validators in the first
+        // place, so the history ends here and the shape is left to C06's report.
+        let injected = 2 + usize::from(ve_enabled);
+        if results.iter().any(|r| {
+            r.as_ref()
+                .err()
+                .is_some_and(|error| l1::is_block_start_construction_shape(error, &decided, injected))
+        }) {
+            ctx.label("history-ends:c06-known-shape:tx-constructed-against-block-start-state");
+            break;
+        }
         let reference = &results[3];
         for (n, result) in results.iter().enumerate() {
             match (reference, result) {
